@@ -721,6 +721,17 @@ def rule_conservation(ctx, R):
                 ok = ok and r == (1, 1)
         ctx.check(ok, R, aw, 'auto_waste:each-expired-track-moved', 'every fetched track is added to the wasted store',
                   'auto_waste does not add every track returned by get_main_store_wasted to the wasted store')
+        # ... on EVERY way through auto_waste: wasted() and skip_epochs_for_scene rely on it to flush the expired tracks;
+        # an early return (a periodicity / configuration value read as "job off") leaves them in the live store for good
+        gm = aw.find_calls(API + '::get_main_store_wasted')
+        if gm:
+            from lib import every_path_passes
+            n += 1
+            missed = [r_ for r_ in aw.returns() if not every_path_passes(aw, 0, r_, [c_.bb for c_ in gm])]
+            ctx.check(not missed, R, aw, 'auto_waste:collects-on-every-path', 'every return is preceded by get_main_store_wasted',
+                      'auto_waste can return without collecting the expired tracks (a path to bb%s avoids '
+                      'get_main_store_wasted): wasted() / skip_epochs_for_scene, which flush through it, then hand out '
+                      'nothing although tracks have expired' % missed, aw.blocks[missed[0]]['t'].get('ln', '') if missed else '')
     for meth, acc in (('wasted', 'get_wasted_store_mut'), ('get_main_store_wasted', 'get_main_store_mut')):
         b = ctx.anchor(R, API + '::' + meth)
         if b is None:
@@ -949,4 +960,84 @@ def rule_epochs_never_forgotten(ctx, R):
     ctx.check(not bad, R, api or 'trackers::epoch_db::EpochDb', 'epoch-map-only-grows', '',
               'entries of the per-scene epoch map are removed (%s): a scene whose counter is dropped restarts at epoch 1' % [
                   '%s in %s' % (c.name, b.npath.rsplit('::', 1)[-1]) for b, c in bad], bad[0][1].ln if bad else '')
+    return n
+
+
+EPOCH_WRITERS = ('EpochDb::next_epoch', 'EpochDb::skip_epochs_for_scene')
+
+
+def rule_epoch_writers(ctx, R):
+    """who-may-write: the per-scene epoch counters are advanced only by next_epoch (one scene: the scene of the call, by
+    one) and skip_epochs_for_scene (one scene, by the requested amount) - the two functions R*.epoch-arithmetic judges.
+    Any other function that takes the WRITE lock of the epoch store can move the clock of a scene that was not submitted
+    (an 'empty frame tick' for the scenes absent from a batch makes the epochs of a scene depend on other scenes)."""
+    n = 0
+    found = []
+    for b in ctx.F.all_bodies():
+        if b.d.get('expn') or b.npath.startswith('examples') or '::tests::' in b.npath:
+            continue
+        for c in b.find_calls():
+            if c.name != 'write' or 'RwLock' not in c.callee or not c.args:
+                continue
+            e = ExprBuilder(b).arg(c, 0)
+            from lib import subst_upvars
+            if b.kind == 'Closure':
+                e = subst_upvars(ctx.F, b, e)
+            if any(y.kind == 'call' and y.name.rsplit('::', 1)[-1] in ('epoch_store', 'epoch_db') for y in e.walk()) or \
+                    e.has_field('epoch_db') or e.has_field('epoch_store'):
+                # ... and writes through it: stores through a reference into the map, or inserts
+                writes = bool(_deref_assignments(b)) or any(
+                    c2.name in ('insert', 'entry', 'extend', 'try_insert') and 'HashMap' in c2.callee for c2 in b.find_calls())
+                if not writes:
+                    for cb in all_closures(ctx.F, b):
+                        writes = writes or bool(_deref_assignments(cb))
+                if writes:
+                    found.append((b, c))
+    owners = [(b, c) for b, c in found if any(w in b.npath for w in EPOCH_WRITERS)]
+    for b, c in found:
+        n += 1
+        ok = (b, c) in owners
+        ctx.read(b)
+        ctx.check(ok, R, b, 'epoch-store-write-lock:%s' % b.npath.rsplit('::', 1)[-1], 'owner' if ok else '',
+                  '%s takes the write lock of the per-scene epoch store but is not one of its owners %s: the epoch of a '
+                  'scene then moves without a submission for that scene (its epochs, expiry and track lengths depend on '
+                  'what happens in other scenes)' % (b.npath, list(EPOCH_WRITERS)), c.ln)
+    if not owners:
+        ctx.fail(R, EPOCH, 'ANCHOR-MISSING:epoch-writers', 'neither next_epoch nor skip_epochs_for_scene takes the write lock '
+                 'of the epoch store any more: who-may-write row cannot be evaluated')
+    return n
+
+
+def rule_status_reads_own_scene(ctx, R):
+    """EpochDb::baked (the status of a track) consults the epoch map for the scene of the track only: `get(&scene_id)`.
+    Any other read of the map (values / iter / keys / max over all scenes) makes the status - expiry, and with it track
+    lengths and ids - of one scene depend on the clock of another scene."""
+    n = 0
+    b = ctx.anchor(R, EPOCH + '::baked')
+    if b is None:
+        return 0
+    import wiring
+    pn = {v: k for k, v in wiring.param_names(b).items()}
+    sc = pn.get('scene_id', 2)
+    bad = []
+    reads = 0
+    for hb in [b] + all_closures(ctx.F, b):
+        eb = ExprBuilder(hb)
+        for c in hb.find_calls():
+            if 'HashMap' not in c.callee and 'hash::map' not in c.callee and 'hash_map' not in c.callee:
+                continue
+            if c.name in ('get', 'contains_key', 'get_key_value') and len(c.args) >= 2:
+                k = eb.arg(c, 1).strip()
+                reads += 1
+                if not (k.kind == 'place' and k.root == ('param', sc) and hb is b):
+                    bad.append((c, 'lookup under %r' % k))
+            elif c.name in ('values', 'iter', 'keys', 'into_iter', 'len', 'values_mut', 'iter_mut', 'drain', 'into_values',
+                            'into_keys', 'is_empty'):
+                bad.append((c, c.name + '()'))
+    n += 1
+    ctx.read(b)
+    ctx.check(reads >= 1 and not bad, R, b, 'status-reads-the-epoch-of-its-own-scene-only', '%d keyed lookup(s)' % reads,
+              'EpochDb::baked reads the epoch map through %s: the status of a track (expiry, hence lengths and ids) of one '
+              'scene depends on the epochs of other scenes' % ([w for _c, w in bad] or 'no keyed lookup'),
+              bad[0][0].ln if bad else '')
     return n
